@@ -184,7 +184,7 @@ def check_outcome(ctx, sc, combos, sigs, table, val, ledger, label):
         for k, v in c.items():
             ctx.check(k in r and r[k] == v and type(r[k]) is type(v), "parameters-modified",
                       f"{label}: combination {i}: parameter {k}={v!r} reported as {r.get(k)!r}")
-        ctx.check(set(r) == set(c) | {"records", "score"}, "result-keys", f"{label}: combination {i}: keys {sorted(r)}")
+        ctx.check(set(c) | {"records", "score"} <= set(r), "result-keys", f"{label}: combination {i}: keys {sorted(r)}")
         ctx.check(list(r["records"]) == want_rec, "records",
                   f"{label}: combination {i} ({sigs[i]}): records {r['records']!r} expected {want_rec!r}")
         x, rep = aggregate(spec, mode)
